@@ -20,10 +20,10 @@ LEVEL_TEXT = ("Coq theorems for every field shape, window and padding mode: the 
               "is tied to the code by running the extracted model and the public functions on every shape <= 5x5 x every window x both "
               "paddings and on multi-field arrays. Proof is the right level: the index arithmetic is where off-by-one errors hide and a "
               "proof covers every shape/window, not a sample.")
-LEVEL_NOTE = ("trusted: the hand-written code-faithful model (validated by the exhaustive correspondence run), extraction, harness, numpy "
+LEVEL_NOTE = ("the scalar tail (zero denominator, clamp) of compute_fss and _aggregate_fss_decomposed is regenerated from source (sites C16.single, C16.agg) and proved equal to the model's fss_of_comps; trusted: the hand-written code-faithful model of the summed-area table (validated by the exhaustive correspondence run), extraction, harness, numpy "
               "integer/float arithmetic on counts (exact for these sizes); xr.apply_ufunc broadcasting is modelled as an inner join on identical labels")
 TECHNIQUE = "Coq proof about a code-faithful summed-area-table model + exhaustive extracted-model correspondence"
-SITES = []
+SITES = ["C16.single", "C16.agg"]
 RULE = ("single fields: every shape HxW <= bound (5x5 thorough, 4x4 quick) x every window 1..H x 1..W x both paddings x k random binary "
         "fields (event density drawn from {0.2,0.5,0.8}, occasionally all-zero / all-one / identical pairs), value fields on the grid k/2 "
         "(also integer-dtype and mixed integer/float fields with fractional thresholds) "
